@@ -248,6 +248,28 @@ def stepAll (d : DSt) (toks : List String) : DSt × String :=
       if bad.isEmpty then (d, "true")
       else (d, s!"false unlocked-before-own-synchronization={showStrs bad}")
     | none => (d, "bad-op")
+  | "oracle" :: "op-unlock" :: rest =>
+    -- observed when every Synchronization step of the hook was over (their tasks handled with
+    -- Success and gone from the queue, nothing running): `binding:unlocked` per binding. "Once the hook
+    -- has been given its Synchronization view, every later change … reaches the hook": a binding that
+    -- is still locked at that point hands nothing over, ever — no step is left that would unlock it.
+    match (kv? "unlocked" rest).map strList with
+    | some obs =>
+      let bad := obs.filter fun o => match o.splitOn ":" with
+        | [_, u] => u != "1"
+        | _ => true
+      if bad.isEmpty then (d, "true")
+      else (d, s!"false still-locked-after-its-synchronization-step={showStrs bad}")
+    | none => (d, "bad-op")
+  | "oracle" :: "m-locked" :: rest =>
+    -- monitor level: how many informers of the monitor pass events on, and has the unlock
+    -- (EnableKubeEventCb, called after the successful Synchronization) begun? "No Event of a binding
+    -- is handed to the hook before that binding's Synchronization step has completed successfully."
+    match (kv? "unlockBegun" rest), (kv? "enabled" rest).bind String.toNat? with
+    | some b, some n =>
+      if b == "1" || n == 0 then (d, "true")
+      else (d, s!"false informers-passing-events-before-the-unlock-began={n}")
+    | _, _ => (d, "bad-op")
   | "oracle" :: "op-group" :: rest =>
     -- group form: the last Group execution's snapshot reflects the final matching state
     match (kv? "last" rest).bind parseCache, (kv? "final" rest).bind parseCache with
